@@ -603,6 +603,7 @@ type stageExec struct {
 	exempt    map[string]bool       // names to which a natural PrepareOk failure happened
 	misfed    map[string]bool // names for which some reception fed bytes other than the announced version's
 	failedAt  map[string]int // name -> op number of a `status` answer "failed" with only queries since
+	servedUnrecovered bool // a request was served between a crash and the next recover
 	lastCrash, lastRecover, lastSettle int // op numbers of the last cut/crash, recover, settle
 	gaveUp    bool                  // cleanwaiting ran: the order may have been given up for cycles
 	crashes   int                   // crash / cut operations in this case
@@ -776,6 +777,14 @@ func (e *stageExec) Do(op []string) string {
 	case "status", "received", "receivedn", "scan", "observe", "mem":
 	default:
 		e.failedAt = map[string]int{} // anything but a query may legitimately change what the receiver holds
+	}
+	switch op[0] {
+	case "prepare", "recv", "ropen", "racerecv":
+		if e.lastCrash > e.lastRecover {
+			// a request served between a crash and the recovery: the real receiver refuses it (C15); what it does to
+			// the staging area is outside the properties
+			e.servedUnrecovered = true
+		}
 	}
 	switch op[0] {
 	case "cut", "crash":
@@ -1672,6 +1681,12 @@ func (e *stageExec) oracleNotLost() {
 		if _, err := os.Stat(filepath.Join(r.root, name) + ".wait"); err == nil {
 			// held: a restart finds a held file only through its companion
 			if _, err := os.Stat(filepath.Join(r.root, name) + ".cmp"); err == nil {
+				continue
+			}
+			if len(e.versions[name]) > 1 || e.servedUnrecovered {
+				// a held version superseded by a newer one of the same name: the companion describes the newer
+				// version or went with it (hypothesis of validated_survives_crash: companion_not_invariant,
+				// witness superseded_wait_ignored_by_recover)
 				continue
 			}
 			e.fails = append(e.fails, fmt.Sprintf("validated-lost: %s was reported as passed/waiting and is held as .wait, but its companion is gone: a restart will not find it", name))
